@@ -162,6 +162,11 @@ func (x *Exec) modelCall(fr *Frame, st *State, fn *ssa.Function, name string, ar
 		return x.freshResultNonNil(st, resT, "log"), true
 	case "encoding/json.Unmarshal":
 		return x.jsonUnmarshal(fr, st, args, resT, pos), true
+	case "fmt.Sprintf":
+		// formats made of literal text and %s applied to string arguments: plain concatenation
+		if r := x.sprintfStrings(st, args); r != nil {
+			return scalar(resT, r), true
+		}
 	case "strings.IndexByte":
 		return scalar(resT, x.indexByte(args[0].Term, args[1].Term)), true
 	case "strings.LastIndexByte":
@@ -259,3 +264,53 @@ func (x *Exec) globalInit(fr *Frame, st *State, p *Pointer, t types.Type) *Value
 }
 
 var _ = fmt.Sprintf
+
+// sprintfStrings models fmt.Sprintf(format, args...) when format is a literal whose only verbs
+// are %s, the argument count is known and every argument is a boxed string.
+func (x *Exec) sprintfStrings(st *State, args []*Value) *Term {
+	if len(args) != 2 || args[1].K != KSlice {
+		return nil
+	}
+	format, ok := x.litContent(args[0].Term)
+	if !ok {
+		return nil
+	}
+	if args[1].Len == nil || args[1].Len.Op != "int" || !args[1].Len.Int.IsInt64() {
+		return nil
+	}
+	n := int(args[1].Len.Int.Int64())
+	parts := strings.Split(format, "%s")
+	if len(parts) != n+1 || strings.Contains(strings.Join(parts, ""), "%") {
+		return nil
+	}
+	et := under(args[1].T).(*types.Slice).Elem()
+	strTag := x.typeTag(tStr)
+	var out *Term
+	app := func(t *Term) {
+		if out == nil {
+			out = t
+		} else {
+			out = x.sconcat(out, t)
+		}
+	}
+	for i := 0; i <= n; i++ {
+		if parts[i] != "" || (i == 0 && n == 0) {
+			app(x.strLit(parts[i]))
+		}
+		if i < n {
+			el := x.load(st, &Pointer{Base: args[1].Ref, ObjT: et, Elem: true, Idx: Add(args[1].Off, IntLit(int64(i)))}, et)
+			if el == nil || el.K != KIface {
+				return nil
+			}
+			// only when the dynamic type is known to be string (checked syntactically)
+			if el.Tag != strTag && el.Tag.String() != strTag.String() {
+				return nil
+			}
+			app(x.unbox(el.IRef, tStr).Term)
+		}
+	}
+	if out == nil {
+		out = x.strLit("")
+	}
+	return out
+}
